@@ -37,6 +37,9 @@ def selftest():
 def search(case):
     seqs, k = case["seqs"], case["k"]
     cd = "hamming" if case.get("hamming") else None
+    if case["engine"] == "symdel_against_itself":
+        # the two-collection form with the same sequences: the list contains (i, i, 0) for every i
+        return pyrepseq.symdel(list(seqs), max_edits=k, custom_distance=cd, seqs2=list(seqs))
     if case["engine"] == "kdtree_max_returns":
         # each sequence reports only its closest neighbours: a neighbour list that is NOT symmetric
         return pyrepseq.kdtree(list(seqs), max_edits=k, custom_distance=cd, max_returns=case.get("max_returns", 1))
@@ -49,6 +52,7 @@ def check_graph(case, rec):
     n = len(seqs)
     nb = call("search", search, case)
     edges = [(int(a), int(b)) for a, b, _ in nb]
+    self_pairs = any(a == b for a, b in edges)
     comps = O.components(n, edges)
     big = [c for c in comps if len(c) > 1]
     iso = [c for c in comps if len(c) == 1]
@@ -56,7 +60,7 @@ def check_graph(case, rec):
     eset = set(edges)
     asym = any((b, a) not in eset for a, b in eset)
     cl = [method, case["nodes_as"], case["adj_as"], "no_neighbours" if not edges else "has_neighbours",
-          "asymmetric_list" if asym else "symmetric_list"]
+          "asymmetric_list" if asym else "symmetric_list", "self_pairs" if self_pairs else "no_self_pairs"]
     rec.note(case, len(big) >= 2 and len(iso) >= 1, cl)
     if case["nodes_as"] == "list":
         nodes = list(seqs)
@@ -215,7 +219,7 @@ def enum_hier_large(tier):
 def graph_case(draw, tier="quick"):
     alpha = draw(st.sampled_from(["ACD", G.AA, G.AA]))
     hamming = draw(st.integers(0, 3)) == 0
-    engine = draw(st.sampled_from(["nearest_neighbor", "nearest_neighbor", "kdtree", "hash_based", "kdtree_max_returns"]))
+    engine = draw(st.sampled_from(["nearest_neighbor", "nearest_neighbor", "kdtree", "hash_based", "kdtree_max_returns", "symdel_against_itself"]))
     k = draw(st.sampled_from([1, 1, 2]))
     if engine == "hash_based":
         k = 1
